@@ -253,7 +253,23 @@ pub fn gen_script(t: &mut Tape, gates: &Gates, max_len: usize) -> Script {
                     _ => 1,
                 };
                 let texts: Vec<&str> = (0..nchanges).map(|_| *t.pick(&pool)).collect();
-                s.messages.push(lsp_did_change(uri, *v, &texts));
+                let mut msg = lsp_did_change(uri, *v, &texts);
+                // a content change may carry a range (and the deprecated rangeLength): a well-formed
+                // message whatever kind of synchronisation the server announced - on an empty or never
+                // opened document, at its start, beyond its end, with start behind end
+                if nchanges > 0 && t.ratio(1, 5) {
+                    for ch in msg["params"]["contentChanges"].as_array_mut().unwrap().iter_mut() {
+                        let (l1, c1, l2, c2) = *t.pick(&[(0u64, 0u64, 0u64, 0u64), (0, 0, 0, 1), (0, 0, 1, 0), (3, 2, 3, 2), (0, 5, 0, 2), (100000, 0, 100000, 7), (0, 0, 4294967295, 4294967295), (2, 70000, 2, 70001)]);
+                        ch["range"] = json!({"start": {"line": l1, "character": c1}, "end": {"line": l2, "character": c2}});
+                        if t.flag() {
+                            ch["rangeLength"] = json!(*t.pick(&[0u64, 1, 7, 100000]));
+                        }
+                        if t.ratio(1, 3) {
+                            ch["text"] = json!(*t.pick(&["", "x", "\n", "ü", "x := 1;\n"]));
+                        }
+                    }
+                }
+                s.messages.push(msg);
                 s.doc_notifications.push((uri.to_string(), *v));
                 s.kinds.push(match nchanges {
                     0 => "didChange.0",
